@@ -288,6 +288,55 @@ func c04Worker(args []string) int {
 	return 0
 }
 
+// ---- root replacement (what ImportNodes to "root" does): one edge write with parent "root" makes another
+// node the instance root. Worker: opens the file, does that one write, stops. Recovery reader: reports
+// which root the instance runs with and whether the new root edge exists.
+
+const c04NewRoot = "rr-new-root"
+
+func c04RootReplace(args []string) int {
+	file := filepath.Join(args[0], "store.sqlite")
+	in, err := vlib.StartInstance(vlib.InstCfg{StoreFile: file})
+	if err != nil {
+		c04Say("STARTERR " + err.Error())
+		return 3
+	}
+	c04Say("ROOT " + in.RootID)
+	if len(args) > 1 && args[1] == "prepare" {
+		c04Say("DONE")
+		in.StopKeepFiles()
+		return 0
+	}
+	nc, err := in.Connect()
+	if err != nil {
+		return 3
+	}
+	c04Say("START 0")
+	e, err := vlib.SendAck(nc, vlib.EdgeSubj(c04NewRoot, "root"), data.Points{{Type: data.PointTypeTombstone, Time: time.Unix(1760000000, 0), Origin: "w"}, {Type: data.PointTypeNodeType, Text: "device"}, {Type: "role", Time: time.Unix(1760000000, 1), Text: "new root", Origin: "w"}})
+	if err == nil && e == "" {
+		c04Say("ACK 0")
+	} else {
+		c04Say(fmt.Sprintf("REFUSED 0 %v %s", err, e))
+	}
+	c04Say("DONE")
+	in.StopKeepFiles()
+	return 0
+}
+
+func c04RootRecover(args []string) int {
+	file := filepath.Join(args[0], "store.sqlite")
+	in, err := vlib.StartInstance(vlib.InstCfg{StoreFile: file})
+	if err != nil {
+		c04Say("RRERR " + err.Error())
+		return 0
+	}
+	nc, _ := in.Connect()
+	ns, err := client.GetNodes(nc, "all", c04NewRoot, "", true)
+	c04Say(fmt.Sprintf("RR root=%s edge=%v err=%v", in.RootID, len(ns) > 0, err != nil && err != data.ErrDocumentNotFound))
+	in.StopKeepFiles()
+	return 0
+}
+
 // ---- recovery child: opens the store again (a failure to open ends this process, not the check)
 
 type c04Dump struct {
@@ -383,14 +432,95 @@ func runC04(tier string, args []string) int {
 	if len(args) > 0 && args[0] == "recover" {
 		return c04Recover(args[1:])
 	}
+	if len(args) > 0 && args[0] == "rootreplace" {
+		return c04RootReplace(args[1:])
+	}
+	if len(args) > 0 && args[0] == "rootrecover" {
+		return c04RootRecover(args[1:])
+	}
 	c := vlib.NewCtx("C04", tier, "fault_enumeration")
-	c.SetRule("per case a writer process (full instance + 1-4 writer connections issuing a deterministic list of acknowledged batches with unique timestamps/values: node batches of 1-5 points and occasional batches of 300-1400 points, in half of the phases a burst of 150-350 pipelined batches from one more connection (the store then works through a backlog), edge creation with node type and edge points, edge-point updates, a mirror, points for a node whose edge is only created later in the phase or after the crash in the next phase, over a 4-deep diamond-shaped tree) is killed with SIGKILL at a crash instant chosen from: (a) the N-th write(2) to the store file or its WAL, injected by strace, N from a PRNG list covering first-time initialisation (small N) and steady state, (b) the k-th hit of a verif-tag hook site inside the store (between the statements of a write transaction, between database write and rebroadcast, between the separate steps of first-time initialisation), (c) a parent-side kill after k acknowledged operations, (d) no kill (clean stop). The file is then reopened by a fresh process (full instance), dumped and judged; the recovered file is run and killed a second time (crash during reopening / continued use). Oracle: reopen succeeds with one root; root id and signing key equal the ones announced before the kill; every acknowledged batch is present (stored timestamp >= each of its points); every started batch is visible completely or not at all; no stored harness point that was never sent; C03 Merkle oracle on the recovered tree; admin.storeVerify silent. distinct = (phase, kill kind, operation kind open at death, init|steady, write-index bucket)")
+	c.SetRule("per case a writer process (full instance + 1-4 writer connections issuing a deterministic list of acknowledged batches with unique timestamps/values: node batches of 1-5 points and occasional batches of 300-1400 points, in half of the phases a burst of 150-350 pipelined batches from one more connection (the store then works through a backlog), edge creation with node type and edge points, edge-point updates, a mirror, points for a node whose edge is only created later in the phase or after the crash in the next phase, over a 4-deep diamond-shaped tree) is killed with SIGKILL at a crash instant chosen from: (a) the N-th write(2) to the store file or its WAL, injected by strace, N from a PRNG list covering first-time initialisation (small N) and steady state, (b) the k-th hit of a verif-tag hook site inside the store (between the statements of a write transaction, between database write and rebroadcast, between the separate steps of first-time initialisation), (c) a parent-side kill after k acknowledged operations, (d) no kill (clean stop). In addition one operation - the replacement of the instance root - is killed at every one of its write(2) calls in turn. The file is then reopened by a fresh process (full instance), dumped and judged; the recovered file is run and killed a second time (crash during reopening / continued use). Oracle: reopen succeeds with one root; root id and signing key equal the ones announced before the kill; every acknowledged batch is present (stored timestamp >= each of its points); every started batch is visible completely or not at all; no stored harness point that was never sent; C03 Merkle oracle on the recovered tree; admin.storeVerify silent. distinct = (phase, kill kind, operation kind open at death, init|steady, write-index bucket)")
 	c.Assume("process death only (SIGKILL): the page cache survives, which is what the property states; power loss is out of scope")
 	self, _ := os.Executable()
 	if _, err := exec.LookPath("strace"); err != nil {
 		c.CheckError("strace not found")
 		return c.Finish()
 	}
+	// ---- one operation, every crash instant: the write that replaces the instance root (an edge below
+	// "root" for another node) is killed at its 1st, 2nd, ... write(2) to the store file or its WAL until a
+	// run completes; after each crash the store must run with the old root and no new root edge, or with the
+	// new root and its edge - never one without the other
+	rootEnum := make(chan struct{})
+	go func() {
+		defer close(rootEnum)
+		baseDir, err := os.MkdirTemp("", "verif-c04root-")
+		if err != nil {
+			return
+		}
+		defer os.RemoveAll(baseDir)
+		prep := exec.Command(self, "C04", tier, "rootreplace", baseDir, "prepare")
+		prep.Env = append(os.Environ(), "VERIF_PORT_BASE=58000")
+		out, _ := prep.CombinedOutput()
+		oldRoot := ""
+		for _, l := range strings.Split(string(out), "\n") {
+			if strings.HasPrefix(l, "ROOT ") {
+				oldRoot = strings.TrimSpace(l[5:])
+			}
+		}
+		if oldRoot == "" {
+			c.Inconclusive("root replacement: preparation failed: " + tail(string(out), 300))
+			return
+		}
+		for n := 1; n <= 80 && !vlib.Aborted(); n++ {
+			dir, err := os.MkdirTemp("", "verif-c04rootN-")
+			if err != nil {
+				return
+			}
+			for _, f := range []string{"store.sqlite", "store.sqlite-wal", "store.sqlite-shm"} {
+				if b, err := os.ReadFile(filepath.Join(baseDir, f)); err == nil {
+					_ = os.WriteFile(filepath.Join(dir, f), b, 0o644)
+				}
+			}
+			file := filepath.Join(dir, "store.sqlite")
+			cmd := exec.Command("strace", "-f", "-qq", "-o", filepath.Join(dir, "strace.log"), "-P", file, "-P", file+"-wal", "-e", "trace=write,fsync", "-e", fmt.Sprintf("inject=write:signal=SIGKILL:when=%d", n), self, "C04", tier, "rootreplace", dir)
+			cmd.Env = append(os.Environ(), "VERIF_PORT_BASE=58000")
+			wout, _ := cmd.CombinedOutput()
+			completed := strings.Contains(string(wout), "DONE")
+			acked := strings.Contains(string(wout), "ACK 0")
+			rc := exec.Command(self, "C04", tier, "rootrecover", dir)
+			rc.Env = append(os.Environ(), "VERIF_PORT_BASE=58400")
+			rout, _ := rc.CombinedOutput()
+			os.RemoveAll(dir)
+			c.Eval(1)
+			var rootNow, edge string
+			for _, l := range strings.Split(string(rout), "\n") {
+				if strings.HasPrefix(l, "RR root=") {
+					f := strings.Fields(l)
+					rootNow, edge = strings.TrimPrefix(f[1], "root="), strings.TrimPrefix(f[2], "edge=")
+				}
+			}
+			wit := map[string]any{"killed_at_write": n, "worker_completed": completed, "acknowledged": acked, "old_root": oldRoot, "root_after_recovery": rootNow, "new_root_edge_exists": edge, "recovery_output": tail(string(rout), 400)}
+			switch {
+			case rootNow == "":
+				c.Violate("crash:store-does-not-reopen", "after a crash inside a root replacement the store does not come up", wit)
+				return
+			case rootNow == oldRoot && edge == "true":
+				c.Violate("crash:root-replacement-partly-applied", fmt.Sprintf("killed at write %d of a root replacement: the edge root -> %s is in the store, but the instance still runs with root %s", n, c04NewRoot, oldRoot), wit)
+				return
+			case rootNow == c04NewRoot && edge != "true", rootNow != oldRoot && rootNow != c04NewRoot:
+				c.Violate("crash:root-replacement-partly-applied", fmt.Sprintf("killed at write %d of a root replacement: the instance runs with root %s, new root edge exists=%s", n, rootNow, edge), wit)
+				return
+			case acked && rootNow != c04NewRoot:
+				c.Violate("crash:acknowledged-write-lost", "the root replacement was acknowledged but the instance runs with the old root after recovery", wit)
+				return
+			}
+			c.Count("root_replacement_crash_instants", 1)
+			c.Distinct(fmt.Sprintf("root replacement killed at write %d -> root %s", n, map[bool]string{true: "new", false: "old"}[rootNow == c04NewRoot]))
+			if completed {
+				return // the kill did not fire any more: every write of the operation has been a crash instant
+			}
+		}
+	}()
 	nCases := c.N(120, 1500)
 	var portMu sync.Mutex
 	portSlot := 0
@@ -717,6 +847,7 @@ func runC04(tier string, args []string) int {
 			}
 		}
 	})
+	<-rootEnum
 	c.Require("recoveries_checked", 20)
 	c.Require("kills_inside_a_write", 5)
 	c.Require("batches_judged", 200)
